@@ -103,6 +103,9 @@ def bracketings(n):
                 yield "B" + inner + "C" + rest
 
 
+NCH = (0, 1, 2, 4, 5)          # channel counts given to every record kind (fixtures: bounding records have 2-5)
+CHANNEL_SHAPES = ("LBLCL", "BLLCL", "BBCLC", "BC", "LBBLCBCCL")
+
 GROUP_VARIANTS = [dict(folder=f, via=v, bvia=bv, artboard=a)
                   for f in ("open", "closed") for v in ("sds", "nsds", "both", "nsds-over-other")
                   for bv in ("sds", "nsds", "both") for a in ([], ["ARTBOARD_DATA1"])]
@@ -213,9 +216,20 @@ def check_property(ctx, obs, toks, describe, kinds_expected=None):
         ctx.fail(f"C08/flatten/records-{what}", "_build_record_tree does not return the original record objects in order",
                  describe, obs["flat_r"], list(range(n)))
     if len(cd) != n or any(a is not b for a, b in zip(cd, chans)):
-        what = "lost" if len(cd) < n else "duplicated" if len(cd) > n else "reordered"
-        ctx.fail(f"C08/flatten/channels-{what}", "_build_record_tree does not return the original channel objects in order",
-                 describe, obs["flat_c"], list(range(n)))
+        what = "lost" if len(cd) < n else "duplicated" if len(cd) > n else \
+            "reordered" if sorted(obs["flat_c"]) == list(range(n)) else "replaced"
+        # slot by slot: what sits in the slot of record i (an object of another slot, None, a foreign object)
+        slots = []
+        for i, c in enumerate(cd[:n]):
+            if c is not chans[i]:
+                j = obs["flat_c"][i]
+                held = "None" if c is None else ("the channel list of record %d (%d channels)" % (j, len(c)) if j >= 0 else
+                                                 "a foreign %s (%s channels)" % (type(c).__name__, len(c) if hasattr(c, "__len__") else "?"))
+                slots.append({"slot": i, "record": getattr(recs[i], "name", None), "read_from_the_file": "%d channels" % len(chans[i]),
+                              "flattened": held})
+        ctx.fail(f"C08/flatten/channels-{what}", "_build_record_tree does not return the original channel objects in order "
+                 "(slot by slot against the (record, channel list) pairs read from the file)",
+                 describe, {"flatten_channel_ids": obs["flat_c"], "slots_that_differ": slots[:8]}, list(range(n)))
     # (2) nesting: every group contains exactly the records strictly between its dividers, bottom to top
     pos = {id(r): i for i, r in enumerate(recs)}
     cpos = {id(c): i for i, c in enumerate(chans)}
@@ -276,6 +290,80 @@ def check_property(ctx, obs, toks, describe, kinds_expected=None):
             ctx.fail(f"C08/kind/{exp}-reported-as-{l.kind}", "layer kind does not follow from its blocks", describe,
                      l.kind, exp)
         ctx.hist("kind", l.kind)
+
+
+def channel_content(ch):
+    """what a channel list holds, as plain data"""
+    return [(int(getattr(c, "compression", -1)), bytes(getattr(c, "data", b"") or b"")) for c in ch]
+
+
+def save_reopen(ctx, obs, describe):
+    """the UNEDITED tree: flattened by `_update_record` (what `save` does first), written, opened again -> the same tree
+    shape over the same records, slot by slot the same channel list content (count, compression, bytes) and name."""
+    from psd_tools.api.psd_image import PSDImage
+    img, recs, chans = obs["img"], obs["recs"], obs["chans"]
+    want = [(r.name, channel_content(c)) for r, c in zip(recs, chans)]
+    # reference: the ORIGINAL (record, channel list) sequence written as it is and opened. Block payloads of a recipe are
+    # placeholders ("presence matters"); a sequence whose placeholders do not survive write + read is not a storable
+    # document and is left out of this clause
+    try:
+        ref = io.BytesIO()
+        db.make_psd(list(recs), list(chans)).write(ref)
+        PSDImage.open(io.BytesIO(ref.getvalue()))
+    except RecursionError:
+        return
+    except Exception:  # noqa
+        ctx.hist("save_reopen", "recipe-not-storable")
+        return
+    try:
+        img._updated_layers = True
+        img._update_record()
+        buf = io.BytesIO()
+        img._record.write(buf)
+    except RecursionError:
+        return
+    except Exception as e:  # noqa
+        ctx.fail("C08/save/unedited-tree-raises-" + err_class(e), "saving the unedited tree (flatten + write) raises",
+                 describe, "%s: %s" % (type(e).__name__, str(e)[:160]), "the bytes of a document with the same records")
+        return
+    try:
+        img2 = PSDImage.open(io.BytesIO(buf.getvalue()))
+        pairs2 = list(img2._record._iter_layers())
+        shape2 = db.shape_of(img2, {id(r): i for i, (r, _) in enumerate(pairs2)})
+    except RecursionError:
+        return
+    except Exception as e:  # noqa
+        ctx.fail("C08/save-reopen/reopen-raises-" + err_class(e), "the saved unedited tree cannot be opened again",
+                 describe, "%s: %s" % (type(e).__name__, str(e)[:160]), "the same tree")
+        return
+    got = [(r.name, channel_content(c)) for r, c in pairs2]
+    if [len(c) for _, c in got] != [len(c) for _, c in want]:
+        ctx.fail("C08/save-reopen/channel-counts-differ", "after save + reopen of the unedited tree the records do not carry the "
+                 "channel lists they were read with", describe, [len(c) for _, c in got], [len(c) for _, c in want])
+    elif got != want:
+        k = next(i for i in range(len(want)) if got[i] != want[i])
+        ctx.fail("C08/save-reopen/record-content-differs", "after save + reopen of the unedited tree a record's name or "
+                 "channel bytes differ", describe, {"slot": k, "got": repr(got[k])[:200]}, repr(want[k])[:200])
+    if forest_str(shape2) != obs["forest"]:
+        ctx.fail("C08/save-reopen/tree-differs", "after save + reopen of the unedited tree the nesting differs", describe,
+                 forest_str(shape2)[:300], obs["forest"][:300])
+    ctx.hist("save_reopen", "done")
+
+
+def storable_keys():
+    """kind / artboard keys whose placeholder payload (docbuild.block_data) survives write + read in a one-leaf document"""
+    from psd_tools.api.psd_image import PSDImage
+    ok = set()
+    for k in ALL_KIND_KEYS + ARTKEYS:
+        try:
+            recs, chans = db.build([{"t": "leaf", "keys": [k]}])
+            buf = io.BytesIO()
+            db.make_psd(recs, chans).write(buf)
+            PSDImage.open(io.BytesIO(buf.getvalue()))
+            ok.add(k)
+        except Exception:  # noqa
+            pass
+    return ok
 
 
 def _srepr(x):
@@ -765,10 +853,36 @@ def run(ctx: core.Run):
         seq = "".join(rng.choice("LLBC") for _ in range(n))
         cases.append(("malformed-random", recipe_from(seq, rng.getrandbits(n), [rng.choice(GROUP_VARIANTS) for _ in range(3)], rng.randrange(99))))
 
+    # (e) NUMBER OF CHANNELS of every record kind: bounding dividers, group records, leaves over NCH (0 = an empty channel
+    #     list, as minimal third-party writers store for dividers), uniformly per kind on fixed shapes x plain group /
+    #     artboard, then record by record at random
+    storable = storable_keys()
+    ctx.extra["storable_placeholder_keys"] = sorted(storable)
+
+    def keep_storable(rc):
+        for sp in rc:
+            if "keys" in sp:
+                sp["keys"] = [k for k in sp["keys"] if k in storable]
+        return rc
+    for seq in CHANNEL_SHAPES:
+        for art in ([], ["ARTBOARD_DATA1"]):
+            gv = dict(GROUP_VARIANTS[0], artboard=art)
+            for nb_, nc_, nl_ in itertools.product(NCH, repeat=3):
+                rc = recipe_from(seq, 0, gv, 0)
+                for sp in rc:
+                    sp["nch"] = {"bound": nb_, "close": nc_, "leaf": nl_}[sp["t"]]
+                cases.append(("channels", keep_storable(rc)))
+    for _ in range(150 if quick else 1500):
+        rc = db.nested(random_tree(rng, rng.randrange(1, 6), [rng.randrange(4, 30)]))
+        for sp in rc:
+            sp["nch"] = rng.choice(NCH)
+        cases.append(("channels-random", keep_storable(rc)))
+
     # ---- run: model in one batch, implementation case by case
     reqs = [("tree.open", " ".join(tok_of_spec(s) for s in rc) or "-") for _, rc in cases]
     answers = drv.batch(reqs)
     kind_reqs = {}
+    n_ok = 0
     for (label, rc), ans in zip(cases, answers):
         toks = [tok_of_spec(s) for s in rc]
         roles = role_string(toks)
@@ -817,6 +931,10 @@ def run(ctx: core.Run):
                     r = l._record
                     key = ("1" if r.flags.pixel_data_irrelevant else "0", ",".join(keys_of_record(r)) or "-")
                     kind_reqs.setdefault(key, (l.kind, rc))
+            # save + reopen of the unedited tree (every channel-count case, every 5th of the others)
+            n_ok += 1
+            if label.startswith("channels") or n_ok % 5 == 0:
+                save_reopen(ctx, obs, brief)
         elif expect == "ok":
             # well nested and refused: the property's domain, so this is a failing input
             ctx.fail("C08/open/well-nested-sequence-refused/" + obs["cls"], "PSDImage refuses a well-nested record sequence",
